@@ -22,7 +22,17 @@ ALL_RECONS = LINEAR_RECONS + ["muscl_" + l for l in LIMITERS]
 KVAL = {"k-1": -1.0, "k0": 0.0, "k1/3": 1.0 / 3.0, "k1/2": 0.5, "k1": 1.0}
 
 
-def recon(name):
+_POOL = {}
+
+
+def recon(name, fresh=False):
+    """reconstruction object by name.  Instances are POOLED (one per name and process) and therefore reused across
+    meshes, models and discretisations, as user code does (`xsch = xnum.muscl(minmod)` shared by several operators):
+    a reconstruction object that keeps hidden state from an earlier mesh then shows up in every operator-level check"""
+    if not fresh:
+        if name not in _POOL:
+            _POOL[name] = recon(name, fresh=True)
+        return _POOL[name]
     if name == "extrapol1":
         return xnum.extrapol1()
     if name == "extrapol2":
@@ -53,3 +63,11 @@ def dyadic_faces(rnd, n, widths=(0.25, 0.5, 1.0, 2.0), x0=0.0):
 
 def uniform(n, length=1.0, x0=0.0):
     return mesh.unimesh(ncell=n, length=length, x0=x0)
+
+
+def recon2(r):
+    """pooled 2D reconstruction object: r = ("e1", None) or ("k", kappa)"""
+    key = ("2d", r[0], r[1])
+    if key not in _POOL:
+        _POOL[key] = xnum.extrapol2d1() if r[0] == "e1" else xnum.extrapol2dk(r[1])
+    return _POOL[key]
